@@ -497,7 +497,7 @@ def judge(ctx, case: dict, obs: dict, wit: dict) -> None:
 
     def rates_in_force(t0, t1):
         """Every value xknx.rate_limit had at some moment of [t0, t1]."""
-        vals = {[v for (t, v) in rate_events if t <= t0 + EPS][-1]}
+        vals = {([v for (t, v) in rate_events if t < t0 - EPS] or [r])[-1]}  # the value before anything that happened in the instant t0
         vals.update(v for (t, v) in rate_events if t0 - EPS <= t <= t1 + EPS)
         return vals
 
